@@ -353,11 +353,9 @@ class World:
                                    ("sections_at", "at")):
                     rg, arg = self.rnd_range()
                     got = self.ids(getattr(owner, meth)(arg), secs)
-                    for s in members:     # the scan over Section.address/size
-                        a_, z_ = s.address, s.size
-                        self.emit("ext %d" % secs.index(s), "%s %s" % (
-                            "-" if a_ is None else a_,
-                            "-" if z_ is None else z_))
+                    self.emit("q %s %s %d %d %d" % (
+                        "secson" if mode == "on" else "secsat", arg_ids,
+                        rg[0], rg[1], rg[2]), fmt(got))
                     want = []
                     for s in members:
                         ext = self.sec_extent_scan(s)
